@@ -1,7 +1,7 @@
 (* C19: the machine of model/Flow.v on the layout of a structured program computes exactly what the
    reference semantics of model/FlowRef.v prescribes (trace and outcome, for every fuel). *)
 From Coq Require Import ZArith List Bool Lia.
-From PCB Require Import gen.Gen_flow model.Flow model.FlowRef proofs.Flow_proofs.
+From PCB Require Import gen.Gen_flow model.Flow model.FlowRef proofs.Flow_proofs proofs.FlowFor_proofs.
 Import ListNotations.
 Open Scope Z_scope.
 
@@ -440,7 +440,7 @@ Lemma exec_for g f cur v a b s nm body rest d :
     let next := for_next v vb vs (line_after body cur) in
     let loop := for_loop (fun f1 d1 => exec subs g f1 cur body d1) next cont g in
     let d0 := d_setv d v va in
-    if (if flow_for_dir (Z.sgn vs) then va >? vb else vb >? va)
+    if passed_end vs vb va
     then next d0 (cont f) (loop f) else loop f d0))).
 Proof. reflexivity. Qed.
 Lemma exec_while g f cur c body rest d :
@@ -608,6 +608,12 @@ Proof.
   set (cont := fun f' d' => exec subs g f' (line_after body cur) rest d').
   set (next := for_next v vb vs (line_after body cur)).
   set (bodyx := fun f1 d1 => exec subs g f1 cur body d1).
+  (* the direction tests of the source are the direction of the reference semantics *)
+  assert (Hsg : (Z.sgn vs >=? 0) = (vs >=? 0)) by (destruct vs; reflexivity).
+  assert (Hdir : forall c, (if flow_next_dir (Z.sgn vs) then c >? vb else vb >? c) = passed_end vs vb c).
+  { intros c. rewrite next_dir_spec, Hsg. reflexivity. }
+  assert (Hdir0 : (if flow_for_dir (Z.sgn vs) then va >? vb else vb >? va) = passed_end vs vb va).
+  { rewrite for_dir_spec, Hsg. reflexivity. }
   (* NEXT, reached with the loop's record on top, from statement `at` *)
   assert (Hnext : forall at_ f3 d2 (nml : list (option var)) kloop,
      (f3 < g)%nat -> onerr d2 = 0 ->
@@ -644,9 +650,9 @@ Proof.
            then IEnded (at_state st0 (d_setv d2 v c) at_)
            else ILoop (at_state st0' (d_setv d2 v c) (S i))).
     { destruct Hnml as [-> | ->]; apply Hit; auto. }
-    rewrite Hnv. unfold next, for_next. cbv zeta.
+    rewrite Hnv. unfold next, for_next. cbv zeta. rewrite Hdir.
     destruct (in16 (getv (env d2) v + vs)); cbn [negb].
-    - destruct (if flow_next_dir (Z.sgn vs) then getv (env d2) v + vs >? vb else vb >? getv (env d2) v + vs).
+    - destruct (passed_end vs vb (getv (env d2) v + vs)).
       + (* the loop ends *)
         cbn [lhs_of]. rewrite pre_out_nil.
         eapply sim_ok_weaken; [|apply (Hcont f3 (d_setv d2 v (getv (env d2) v + vs))); auto]. lia.
@@ -670,7 +676,7 @@ Proof.
         apply Hnext; auto; try lia.
         * unfold nmv. destruct nm; [right | left]; reflexivity.
         * intros d3 Hd3. apply IHn; auto; lia. }
-  destruct (if flow_for_dir (Z.sgn vs) then va >? vb else vb >? va).
+  rewrite Hdir0. destruct (passed_end vs vb va).
   - (* the start is already past the end *)
     assert (Hnm : None :: map Some (skipn 1 nmv) = [None (A:=var)]) by (unfold nmv; destruct nm; reflexivity).
     rewrite Hnm.
